@@ -106,6 +106,38 @@ pub trait SignedIntOps: NumericOps<Primitive = i64> {}
 pub trait UnsignedIntOps: NumericOps<Primitive = u64> {}
 pub trait FloatOps: NumericOps<Primitive = f64> {}
 
+/// Arithmetic on the promoted primitives that reports overflow (and integer division by zero)
+/// instead of panicking in debug builds and wrapping in release builds.
+pub trait CheckedArith: Sized {
+    fn add_checked(self, rhs: Self) -> Option<Self>;
+    fn sub_checked(self, rhs: Self) -> Option<Self>;
+    fn mul_checked(self, rhs: Self) -> Option<Self>;
+    fn div_checked(self, rhs: Self) -> Option<Self>;
+    fn rem_checked(self, rhs: Self) -> Option<Self>;
+}
+
+macro_rules! checked_arith_int {
+    ($($t:ty),*) => {$(
+        impl CheckedArith for $t {
+            fn add_checked(self, rhs: Self) -> Option<Self> { self.checked_add(rhs) }
+            fn sub_checked(self, rhs: Self) -> Option<Self> { self.checked_sub(rhs) }
+            fn mul_checked(self, rhs: Self) -> Option<Self> { self.checked_mul(rhs) }
+            fn div_checked(self, rhs: Self) -> Option<Self> { self.checked_div(rhs) }
+            fn rem_checked(self, rhs: Self) -> Option<Self> { self.checked_rem(rhs) }
+        }
+    )*};
+}
+checked_arith_int!(i64, u64);
+
+// Floating point arithmetic never traps: it saturates to infinity or yields NaN.
+impl CheckedArith for f64 {
+    fn add_checked(self, rhs: Self) -> Option<Self> { Some(self + rhs) }
+    fn sub_checked(self, rhs: Self) -> Option<Self> { Some(self - rhs) }
+    fn mul_checked(self, rhs: Self) -> Option<Self> { Some(self * rhs) }
+    fn div_checked(self, rhs: Self) -> Option<Self> { Some(self / rhs) }
+    fn rem_checked(self, rhs: Self) -> Option<Self> { Some(self % rhs) }
+}
+
 /// Trait to generate promotion tables for numeric types.
 pub trait Promote<Rhs>: NumericOps {
     type Output: Add<Output = Self::Output>
@@ -113,6 +145,7 @@ pub trait Promote<Rhs>: NumericOps {
         + Mul<Output = Self::Output>
         + Div<Output = Self::Output>
         + Rem<Output = Self::Output>
+        + CheckedArith
         + Copy;
 
     fn promote_lhs(self) -> Self::Output;
@@ -122,27 +155,32 @@ pub trait Promote<Rhs>: NumericOps {
 /// Arithmetic operations over the promoted types.
 pub trait PromotedAdd<Rhs = Self> {
     type Output;
-    fn promoted_add(self, rhs: Rhs) -> Self::Output;
+    /// `None` when the result does not fit the promoted type.
+    fn promoted_add(self, rhs: Rhs) -> Option<Self::Output>;
 }
 
 pub trait PromotedSub<Rhs = Self> {
     type Output;
-    fn promoted_sub(self, rhs: Rhs) -> Self::Output;
+    /// `None` when the result does not fit the promoted type.
+    fn promoted_sub(self, rhs: Rhs) -> Option<Self::Output>;
 }
 
 pub trait PromotedMul<Rhs = Self> {
     type Output;
-    fn promoted_mul(self, rhs: Rhs) -> Self::Output;
+    /// `None` when the result does not fit the promoted type.
+    fn promoted_mul(self, rhs: Rhs) -> Option<Self::Output>;
 }
 
 pub trait PromotedDiv<Rhs = Self> {
     type Output;
-    fn promoted_div(self, rhs: Rhs) -> Self::Output;
+    /// `None` when the result does not fit the promoted type.
+    fn promoted_div(self, rhs: Rhs) -> Option<Self::Output>;
 }
 
 pub trait PromotedRem<Rhs = Self> {
     type Output;
-    fn promoted_rem(self, rhs: Rhs) -> Self::Output;
+    /// `None` when the result does not fit the promoted type.
+    fn promoted_rem(self, rhs: Rhs) -> Option<Self::Output>;
 }
 
 // Blanket impls for promoted operations.
@@ -151,8 +189,8 @@ where
     L: Promote<R>,
 {
     type Output = L::Output;
-    fn promoted_add(self, rhs: R) -> Self::Output {
-        L::promote_lhs(self) + L::promote_rhs(rhs)
+    fn promoted_add(self, rhs: R) -> Option<Self::Output> {
+        L::promote_lhs(self).add_checked(L::promote_rhs(rhs))
     }
 }
 
@@ -161,8 +199,8 @@ where
     L: Promote<R>,
 {
     type Output = L::Output;
-    fn promoted_sub(self, rhs: R) -> Self::Output {
-        L::promote_lhs(self) - L::promote_rhs(rhs)
+    fn promoted_sub(self, rhs: R) -> Option<Self::Output> {
+        L::promote_lhs(self).sub_checked(L::promote_rhs(rhs))
     }
 }
 
@@ -171,8 +209,8 @@ where
     L: Promote<R>,
 {
     type Output = L::Output;
-    fn promoted_mul(self, rhs: R) -> Self::Output {
-        L::promote_lhs(self) * L::promote_rhs(rhs)
+    fn promoted_mul(self, rhs: R) -> Option<Self::Output> {
+        L::promote_lhs(self).mul_checked(L::promote_rhs(rhs))
     }
 }
 
@@ -181,8 +219,8 @@ where
     L: Promote<R>,
 {
     type Output = L::Output;
-    fn promoted_div(self, rhs: R) -> Self::Output {
-        L::promote_lhs(self) / L::promote_rhs(rhs)
+    fn promoted_div(self, rhs: R) -> Option<Self::Output> {
+        L::promote_lhs(self).div_checked(L::promote_rhs(rhs))
     }
 }
 
@@ -191,8 +229,8 @@ where
     L: Promote<R>,
 {
     type Output = L::Output;
-    fn promoted_rem(self, rhs: R) -> Self::Output {
-        L::promote_lhs(self) % L::promote_rhs(rhs)
+    fn promoted_rem(self, rhs: R) -> Option<Self::Output> {
+        L::promote_lhs(self).rem_checked(L::promote_rhs(rhs))
     }
 }
 
